@@ -110,6 +110,7 @@ SHAPE DECISIONS  (file:line refer to /repo)
     (RFC 8955 4.2).  Rule length: 1 octet below 240, else 0xF000 | length (RFC 8955 4.1).
 15. Update.parse reports `attr` as a dict ({} when there are no attributes), `nlri` / `withdraw` as lists.
 """
+import functools
 import ipaddress
 import struct
 
@@ -143,16 +144,24 @@ def _int_text(s, what):
     return int(s.strip())
 
 
+@functools.lru_cache(maxsize=1 << 16)
+def _packed(version, text):
+    # only text is accepted: ipaddress would also take integers and packed bytes
+    if not isinstance(text, str):
+        raise TypeError(text)
+    return (ipaddress.IPv4Address(text) if version == 4 else ipaddress.IPv6Address(text)).packed
+
+
 def _ip4(text, what='IPv4 address'):
     try:
-        return ipaddress.IPv4Address(text).packed
+        return _packed(4, text)
     except (ipaddress.AddressValueError, ValueError, TypeError):
         raise OutOfRange('%s: not an IPv4 address: %r' % (what, text))
 
 
 def _ip6(text, what='IPv6 address'):
     try:
-        return ipaddress.IPv6Address(text).packed
+        return _packed(6, text)
     except (ipaddress.AddressValueError, ValueError, TypeError):
         raise OutOfRange('%s: not an IPv6 address: %r' % (what, text))
 
@@ -167,6 +176,7 @@ def ip4_text(b):
     return '%d.%d.%d.%d' % tuple(b)
 
 
+@functools.lru_cache(maxsize=1 << 16)
 def ip6_text(b):
     v = int.from_bytes(b, 'big')
     if v >> 32 == 0xffff:
@@ -1309,6 +1319,7 @@ def _dec_flowspec(buf):
 
 
 def decode_nlri(afi, safi, buf, withdraw, add_path=False):
+    buf = bytes(buf)
     on = _addpath_on(add_path, afi, safi)
     ver = _afi_version(afi)
     if safi == 1 and afi in (1, 2):
@@ -1403,6 +1414,7 @@ def decode_update(body, asn4, add_path=False):
       'attr' / 'withdraw' / 'nlri'  the same content in the decoder shapes of expected()
     Raises Malformed when lengths do not nest, a flag octet contradicts the type's category, an
     attribute repeats, or a value is malformed."""
+    body = bytes(body)
     b, pos = _take(body, 0, 2, 'withdrawn routes length')
     wd, pos = _take(body, pos, struct.unpack('!H', b)[0], 'withdrawn routes')
     b, pos = _take(body, pos, 2, 'total path attribute length')
